@@ -199,12 +199,16 @@ pub fn run_shard<P: Prop>(args: ShardArgs) -> ShardSummary {
     // 2. bounded-exhaustive tier
     if want("enumerated") {
         let mut stop = false;
+        let mut repeats = 0u32;
         P::enumerate(args.tier, args.shard, args.nshards, &mut |case| {
             if let Some(fl) = exec::<P>(&mut st, &case, "enumerated") {
-                // greedy structural shrinking with the module's candidates
-                let (case, fl, shrunk) = greedy_shrink::<P>(&mut st, case, fl);
-                record::<P>(&mut st, fl, &case, "enumerated", shrunk);
-                if st.distinct_fail_sigs.len() >= 3 {
+                repeats += 1;
+                if !st.distinct_fail_sigs.contains(&fl.signature()) {
+                    // greedy structural shrinking with the module's candidates
+                    let (case, fl, shrunk) = greedy_shrink::<P>(&mut st, case, fl);
+                    record::<P>(&mut st, fl, &case, "enumerated", shrunk);
+                }
+                if st.distinct_fail_sigs.len() >= 3 || repeats >= 200 {
                     stop = true;
                 }
             }
